@@ -13,6 +13,9 @@ MODULE = "Props.C03"
 SUPPORT = ["theories/Proofs/FloatLemmas.v", "theories/Proofs/ConvFloat.v", "theories/Proofs/Tree.v", "theories/Proofs/PowR.v", "theories/Proofs/ErrBound.v"]
 
 
+OFFSET_ANCHORS = {"degree_celsius": Fraction("273.15"), "degree_fahrenheit": Fraction("459.67") * 5 / 9}
+
+
 def run(ctx):
     if not ctx.translate():
         return
@@ -115,6 +118,12 @@ def run(ctx):
         nontrivial = not (bs == "si" and T.frac(u["coef"]) == 1 and u["const"] is None) or vname in ("-0", "nan", "+inf", "-inf", "+minsub")
         if nontrivial:
             distinct.add((ty, bs, qm, un, d, vb))
+        # the two offset scales against the property's own numbers (independent of the tables): 0 degC is stored as 273.15 K, 0 degF as 459.67 x 5/9 K
+        if qm == "thermodynamic_temperature" and bs == "si" and d == "n" and vname == "+0" and un in OFFSET_ANCHORS and got not in (None, "PANIC", "nan"):
+            g_ = FC.bits_to_frac(int(got, 16), ty)
+            w_ = OFFSET_ANCHORS[un]
+            if abs(g_ - w_) > 4 * FC.ulp_of(w_, ty):
+                spec_fail.append((cid, (False, f"new::<{un}>(0) stores {float(g_)!r} K; the scale's zero is {float(w_)!r} K", None)))
         # spec checker on the implementation's answer
         r = convlib.spec_check(t, pub, ty, bs, qm, un, d, vb, got)
         if r is not None and not r[0]:
